@@ -36,6 +36,7 @@ func c10Names() []string {
 }
 
 func c10(r *mon.Run) {
+	var edgeResults mon.Workload
 	r.Rule = "exhaustive: (26 built-in names + foo, Abs, length2, amp) x argument counts 0..3 (0..4 in thorough; quick covers arity 4 for the variadic functions and 3 fixed-arity representatives) x every argument tuple over a 14-value universe (null, boolean, number, string, array[number], array[string], mixed / empty / nested array, object, empty object, array of objects, &a, &@), arguments written as literals and read from the document; " +
 		"by-expression functions x arrays of length 0..3 whose keys are number / string / null / array / object / boolean / missing in every combination; seeded random nestings of ill-typed calls; the ill-typed half of the sized-array cases (by-expression keys inconsistent at one position of 1...1000 elements); 23 Go values that are not the JSON representation (int, uint8, float32, json.Number, named types, pointers, structs, typed maps, []interface{} holding such values, complex, func, chan, nil *struct, [2]int) in every parameter position of every function, direct and per element of a projection: an error where the position declares a type, never a panic; expression references with 19 kinds of body (paths, calls, multi-selects, operators, literals, projections, a failing call) in every parameter position. Oracle: ref.CheckArgs (signature table) + model. Non-trivial = distinct (function, arity, type tuple) that the table rejects."
 	r.Exhaustive = true
@@ -738,5 +739,40 @@ func c10(r *mon.Run) {
 			}
 			t.NontrivialDistinct(1)
 		}}
-	r.Exec(exh, by, many, rnd, sizedWorkload(r, "sized-arrays-ill-typed", true), nj, erw, oddw, inctx, latew, nearw, afterw, wprodw, hidw)
+	// a call on the result of a call that yields null (or another kind) for edge inputs only: avg / max / min of an empty list,
+	// max_by / min_by of one, to_number of a string that is no number, not_null of nulls, an index past the end. What "this call
+	// always returns a number" lets a type check be skipped for, is not always a number
+	{
+		f, lit, raw, fn := gen.Field, gen.LitJSON, gen.Raw, gen.Func
+		inners := []func() *gen.Expr{
+			func() *gen.Expr { return fn("avg", f("ea")) }, func() *gen.Expr { return fn("max", f("ea")) }, func() *gen.Expr { return fn("min", f("ea")) }, func() *gen.Expr { return fn("max_by", f("ea"), gen.ExpRef(f("k"))) },
+			func() *gen.Expr { return fn("min_by", f("ea"), gen.ExpRef(f("k"))) }, func() *gen.Expr { return fn("to_number", raw("x")) }, func() *gen.Expr { return fn("to_number", f("s")) }, func() *gen.Expr { return fn("not_null", f("z")) },
+			func() *gen.Expr { return fn("not_null", f("z"), f("z")) }, func() *gen.Expr { return gen.Chain(f("ea"), gen.StIndex(0)) }, func() *gen.Expr { return fn("avg", lit("[]")) }, func() *gen.Expr { return fn("max", f("es")) },
+			func() *gen.Expr { return fn("avg", f("an")) }, func() *gen.Expr { return fn("max", f("an")) }, func() *gen.Expr { return fn("sum", f("ea")) }, func() *gen.Expr { return fn("to_number", f("n")) }, func() *gen.Expr { return fn("max_by", f("ao"), gen.ExpRef(f("k"))) },
+			func() *gen.Expr { return fn("sort", f("ea")) }, func() *gen.Expr { return fn("keys", f("e")) }, func() *gen.Expr { return fn("to_array", f("z")) }, func() *gen.Expr { return fn("merge", f("e")) }, func() *gen.Expr { return fn("join", raw(""), f("ea")) },
+			func() *gen.Expr { return fn("reverse", raw("")) }, func() *gen.Expr {
+				return fn("avg", gen.Chain(f("ao"), gen.StFilter(gen.Cmp(">", f("k"), lit("99"))), gen.StField("k")))
+			}, func() *gen.Expr { return fn("min", gen.Chain(f("ao"), gen.StListStar(), gen.StField("missing"))) },
+		}
+		outers := []func(x *gen.Expr) *gen.Expr{
+			func(x *gen.Expr) *gen.Expr { return fn("abs", x) }, func(x *gen.Expr) *gen.Expr { return fn("ceil", x) }, func(x *gen.Expr) *gen.Expr { return fn("floor", x) }, func(x *gen.Expr) *gen.Expr { return fn("length", x) },
+			func(x *gen.Expr) *gen.Expr { return fn("starts_with", x, raw("a")) }, func(x *gen.Expr) *gen.Expr { return fn("ends_with", raw("a"), x) }, func(x *gen.Expr) *gen.Expr { return fn("join", raw(","), x) }, func(x *gen.Expr) *gen.Expr { return fn("join", x, f("es")) },
+			func(x *gen.Expr) *gen.Expr { return fn("keys", x) }, func(x *gen.Expr) *gen.Expr { return fn("values", x) }, func(x *gen.Expr) *gen.Expr { return fn("sort", x) }, func(x *gen.Expr) *gen.Expr { return fn("reverse", x) }, func(x *gen.Expr) *gen.Expr { return fn("contains", x, raw("a")) },
+			func(x *gen.Expr) *gen.Expr { return fn("sum", x) }, func(x *gen.Expr) *gen.Expr { return fn("avg", x) }, func(x *gen.Expr) *gen.Expr { return fn("max", x) }, func(x *gen.Expr) *gen.Expr { return fn("merge", x) }, func(x *gen.Expr) *gen.Expr { return fn("merge", f("e"), x) },
+			func(x *gen.Expr) *gen.Expr { return fn("sort_by", x, gen.ExpRef(f("k"))) }, func(x *gen.Expr) *gen.Expr { return fn("map", gen.ExpRef(f("k")), x) }, func(x *gen.Expr) *gen.Expr { return fn("max_by", x, gen.ExpRef(f("k"))) }, func(x *gen.Expr) *gen.Expr { return fn("to_number", x) },
+			func(x *gen.Expr) *gen.Expr { return fn("abs", fn("abs", x)) }, func(x *gen.Expr) *gen.Expr { return fn("sum", gen.MultiList(x, lit("1"))) }, func(x *gen.Expr) *gen.Expr { return gen.MultiList(fn("abs", fn("avg", f("an"))), fn("abs", x)) },
+		}
+		edgeDoc := docs.J(`{"ea":[],"es":["a","b"],"an":[1,2],"ao":[{"k":1},{"k":2}],"e":{},"z":null,"s":"str","n":-3}`)
+		edw := mon.Workload{Name: "calls-on-results-that-are-null-for-edge-inputs", N: len(inners) * len(outers), Batch: 200,
+			Do: func(i int, t *mon.Tally) {
+				tree := outers[i%len(outers)](inners[i/len(outers)]())
+				cx := &caseCtx{r, t, "calls-on-results-that-are-null-for-edge-inputs", i}
+				res, _, _ := cx.runBoth(tree, gen.SpellTight(tree), edgeDoc)
+				if isErr(res) {
+					t.NontrivialDistinct(1)
+				}
+			}}
+		edgeResults = edw
+	}
+	r.Exec(exh, by, many, rnd, sizedWorkload(r, "sized-arrays-ill-typed", true), nj, erw, oddw, inctx, latew, nearw, afterw, wprodw, hidw, edgeResults)
 }
